@@ -86,12 +86,38 @@ Definition driver_results (tr : list event) : list (nat * tres) :=
 Definition results_ok (tr : list event) : bool :=
   forallb (fun p => is_qf (snd p) || option_eqb tres_eqb (lookup (fst p) (driver_results tr)) (Some (snd p))) (delivers tr).
 
-(* after a drained run every ticket has been answered *)
+(* ---- the submitter's own level: what transform_and_write_value (API function, eval loop, sequence step) and
+   patch_port_value finally get back.  Judged on the prefix before the answer:
+     told OK (or an API 204/202)  =>  the value was started at the driver and the driver call returned normally
+     told QueueFull               <=> the ticket was dropped
+     told an error                =>  the driver call of that ticket raised *)
+Definition told_one (pre : list event) (e : event) : bool :=
+  match e with
+  | Told t r =>
+      if is_qf r then memb t (failed pre)
+      else negb (memb t (failed pre)) && option_eqb tres_eqb (lookup t (driver_results pre)) (Some r)
+  | ApiTold t ok =>
+      if ok then negb (memb t (failed pre)) && option_eqb tres_eqb (lookup t (driver_results pre)) (Some TOk)
+      else memb t (failed pre) || option_eqb tres_eqb (lookup t (driver_results pre)) (Some TExc)
+  | _ => true
+  end.
+
+Fixpoint told_ok_from (pre_rev : list event) (tr : list event) : bool :=
+  match tr with
+  | [] => true
+  | e :: r => told_one (rev pre_rev) e && told_ok_from (e :: pre_rev) r
+  end.
+Definition told_ok (tr : list event) : bool := told_ok_from [] tr.
+
+Definition ev_told (e : event) : list nat := match e with Told t _ => [t] | _ => [] end.
+Definition tolds (tr : list event) : list nat := flat_map ev_told tr.
+
+(* after a drained run every ticket has been answered, at both levels *)
 Definition all_answered (tr : list event) : bool :=
-  forallb (fun p => memb (snd p) (map fst (delivers tr))) (submitted tr).
+  forallb (fun p => memb (snd p) (map fst (delivers tr)) && memb (snd p) (tolds tr)) (submitted tr).
 
 (* bit mask of the clauses a trace contradicts (0 = none) *)
 Definition spec_code (cap : nat) (drained : bool) (tr : list event) : nat :=
   (if reads_exclusive tr then 0 else 1) + (if writes_exclusive tr then 0 else 2) + (if order_ok tr then 0 else 4)
   + (if drops_ok cap tr then 0 else 8) + (if notify_ok tr then 0 else 16) + (if results_ok tr then 0 else 32)
-  + (if drained && negb (all_answered tr) then 64 else 0).
+  + (if drained && negb (all_answered tr) then 64 else 0) + (if told_ok tr then 0 else 128).
